@@ -70,7 +70,7 @@ impl Cfg {
 const KEYS: [&str; 4] = ["a", "b", "c", "d"];
 const INTS: [i64; 6] = [0, 1, 2, 5, -1, 10];
 const STRS: [&str; 8] = ["", "x", "xy", "y", "a", "1", "true", "xyz"];
-const USTRS: [&str; 4] = ["é", "日本", "x😀", "ß"];
+const USTRS: [&str; 6] = ["é", "日本", "x😀", "ß", "it's", "q\"q"];
 const FLTS: [i64; 4] = [500, 1500, 2000, -500];
 const FSTRS: [&str; 12] = ["12", "-3", "1.5", "TRUE", "false", "Hello", "a%20b", "h\u{e9}llo", "{\"k\":1}", "[1,2]", "7", "x%2Fy"];
 
